@@ -209,7 +209,31 @@ func c12AddPeer(t *testing.T, s *BgpServer, addr string, as uint32, cfg c12Cfg) 
 	if err != nil {
 		t.Fatal(err)
 	}
+	// no FSM goroutine: a handler whose cancel function deleteNeighbor / stopNeighbor can call
+	ctx, cancel := context.WithCancel(context.Background())
+	p.fsm.h = &fsmHandler{fsm: p.fsm, outgoing: p.fsm.outgoingCh, ctx: ctx, ctxCancel: cancel}
 	return p
+}
+
+// deleteAndReadd removes the neighbour through the API (DeletePeer → deleteNeighbor, the path UpdatePeer
+// and StopBgp use as well) and configures it again: a new peer object.
+func (e *c12Env) deleteAndReadd() {
+	if e.idling {
+		e.leaveIdle <- struct{}{}
+		e.idling = false
+	}
+	old := e.p
+	if err := e.s.DeletePeer(context.Background(), &api.DeletePeerRequest{Address: "10.9.0.2"}); err != nil {
+		e.t.Fatal(err)
+	}
+	synctest.Wait()
+	old.fsm.gracefulRestartTimer.Stop() // the FSM loop of the deleted neighbour is gone
+	old.fsm.outgoingCh.Close()
+	for range old.fsm.outgoingCh.Out() {
+	}
+	e.p = c12AddPeer(e.t, e.s, "10.9.0.2", 65002, e.cfg)
+	e.fsmState = bgp.BGP_FSM_IDLE
+	synctest.Wait()
 }
 
 func (e *c12Env) stop() {
@@ -468,11 +492,15 @@ func (e *c12Env) update(m *bgp.BGPMessage) {
 	synctest.Wait()
 }
 
-func (e *c12Env) announce(fam, key, ver int, noLL bool, nLL int) {
+func (e *c12Env) announce(fam, key, ver int, noLL bool, nLL int, rej bool) {
 	nlri, nh := c12Prefix(fam, key)
+	asPath := []uint32{65002}
+	if rej {
+		asPath = []uint32{65002, 65001} // our own AS in the path: rejected at reception, kept in the Adj-RIB-In
+	}
 	attrs := []bgp.PathAttributeInterface{
 		bgp.NewPathAttributeOrigin(0),
-		bgp.NewPathAttributeAsPath([]bgp.AsPathParamInterface{bgp.NewAs4PathParam(bgp.BGP_ASPATH_ATTR_TYPE_SEQ, []uint32{65002})}),
+		bgp.NewPathAttributeAsPath([]bgp.AsPathParamInterface{bgp.NewAs4PathParam(bgp.BGP_ASPATH_ATTR_TYPE_SEQ, asPath)}),
 	}
 	var nlris []bgp.PathNLRI
 	if fam == 0 {
@@ -517,10 +545,11 @@ type c12Route struct {
 	stale         bool
 	nLL           int
 	noLL          bool
+	rej           bool // rejected at reception (AS_PATH loop): in the Adj-RIB-In, not accepted, not in the Loc-RIB
 }
 
 func (r c12Route) String() string {
-	return fmt.Sprintf("%d.%d.%d.%d.%d.%d", r.fam, r.key, r.ver, c12b(r.stale), r.nLL, c12b(r.noLL))
+	return fmt.Sprintf("%d.%d.%d.%d.%d.%d.%d", r.fam, r.key, r.ver, c12b(r.stale), r.nLL, c12b(r.noLL), c12b(r.rej))
 }
 
 func c12PathToRoute(p *table.Path) c12Route {
@@ -548,6 +577,7 @@ func c12PathToRoute(p *table.Path) c12Route {
 			r.noLL = true
 		}
 	}
+	r.rej = p.IsRejected()
 	return r
 }
 
@@ -589,6 +619,72 @@ func c12Routes(rs []c12Route) string {
 	return strings.Join(ss, " ")
 }
 
+// counters: what GetTable(ADJ_IN) reports per configured family — AdjRib.TableInfo: NumPath / NumAccepted.
+func (e *c12Env) counters() string {
+	parts := []string{}
+	for _, f := range e.cfg.fams {
+		info, err := e.p.adjRibIn.TableInfo(c12Families[f.id])
+		if err != nil {
+			parts = append(parts, fmt.Sprintf("%d:err", f.id))
+			continue
+		}
+		parts = append(parts, fmt.Sprintf("%d:%d/%d", f.id, info.NumPath, info.NumAccepted))
+	}
+	return strings.Join(parts, " ")
+}
+
+// apiView reads the same things through the API (GetTable ADJ_IN, ListPeer) and returns what differs
+// from the white-box reads, "" if nothing.
+func (e *c12Env) apiView() string {
+	ctx := context.Background()
+	parts := []string{}
+	for _, f := range e.cfg.fams {
+		rf := c12Families[f.id]
+		info, err := e.s.GetTable(ctx, &api.GetTableRequest{TableType: api.TableType_TABLE_TYPE_ADJ_IN, Family: apiutil.ToApiFamily(rf.Afi(), rf.Safi()), Name: "10.9.0.2"})
+		if err != nil {
+			return "GetTable: " + err.Error()
+		}
+		parts = append(parts, fmt.Sprintf("%d:%d/%d", f.id, info.NumPath, info.NumAccepted))
+	}
+	if got := strings.Join(parts, " "); got != e.counters() {
+		return "GetTable(ADJ_IN) " + got + " vs " + e.counters()
+	}
+	conf := e.p.fsm.pConf.ReadOnly()
+	diff := ""
+	err := e.s.ListPeer(ctx, &api.ListPeerRequest{Address: "10.9.0.2"}, func(p *api.Peer) {
+		if p.GracefulRestart == nil {
+			diff = "ListPeer: no graceful-restart state"
+			return
+		}
+		if p.GracefulRestart.PeerRestarting != conf.GracefulRestart.State.PeerRestarting || p.GracefulRestart.LocalRestarting != conf.GracefulRestart.State.LocalRestarting {
+			diff = fmt.Sprintf("ListPeer restarting flags %v/%v vs %v/%v", p.GracefulRestart.PeerRestarting, p.GracefulRestart.LocalRestarting,
+				conf.GracefulRestart.State.PeerRestarting, conf.GracefulRestart.State.LocalRestarting)
+			return
+		}
+		est := conf.State.SessionState == oc.SESSION_STATE_ESTABLISHED
+		for i, a := range p.AfiSafis {
+			if i >= len(conf.AfiSafis) || a.MpGracefulRestart == nil || a.MpGracefulRestart.State == nil {
+				continue
+			}
+			if a.MpGracefulRestart.State.EndOfRibReceived != conf.AfiSafis[i].MpGracefulRestart.State.EndOfRibReceived {
+				diff = fmt.Sprintf("ListPeer EndOfRibReceived of family %d", i)
+				return
+			}
+			if est && a.State != nil {
+				info, _ := e.p.adjRibIn.TableInfo(conf.AfiSafis[i].State.Family)
+				if info != nil && (a.State.Received != uint64(info.NumPath) || a.State.Accepted != uint64(info.NumAccepted)) {
+					diff = fmt.Sprintf("ListPeer AfiSafi.State received/accepted %d/%d vs %d/%d", a.State.Received, a.State.Accepted, info.NumPath, info.NumAccepted)
+					return
+				}
+			}
+		}
+	})
+	if err != nil {
+		return "ListPeer: " + err.Error()
+	}
+	return diff
+}
+
 func (e *c12Env) dump() string {
 	conf := e.p.fsm.pConf.ReadOnly()
 	st := conf.GracefulRestart.State
@@ -619,7 +715,7 @@ func (e *c12Env) dump() string {
 		}
 	}
 	sort.Ints(neg)
-	fmt.Fprintf(&b, " | neg=%v | ", neg)
+	fmt.Fprintf(&b, " | neg=%v | cnt %s | ", neg, e.counters())
 	b.WriteString(c12Routes(e.adjIn()))
 	return b.String()
 }
@@ -631,6 +727,7 @@ type c12ORoute struct {
 	ver      int
 	stale    bool
 	noLL     bool
+	rej      bool // announced with an AS_PATH loop
 	ll       bool // must carry LLGR_STALE
 	llJudged bool // false: announced after the long-lived period began and lost again (not judged)
 }
@@ -829,10 +926,39 @@ func (o *c12Oracle) advance(t int) {
 	o.now = t
 }
 
-func (o *c12Oracle) announce(fam, key, ver int, noLL bool) {
+func (o *c12Oracle) announce(fam, key, ver int, noLL, rej bool) {
 	if o.up {
-		o.routes[[2]int{fam, key}] = &c12ORoute{ver: ver, noLL: noLL, llJudged: true}
+		o.routes[[2]int{fam, key}] = &c12ORoute{ver: ver, noLL: noLL, rej: rej, llJudged: true}
 	}
+}
+
+// deleted: the peer object went away (and was configured again): nothing of it may be left.
+func (o *c12Oracle) deleted() {
+	o.up = false
+	o.routes = map[[2]int]*c12ORoute{}
+	o.retaining, o.restartAt, o.llPhase = false, -1, false
+	o.llDeadline = map[int]int{}
+	o.pendingEOR = map[int]bool{}
+	o.grNeg, o.nNeg, o.llNeg = false, false, false
+	o.grFams, o.llFams = map[int]bool{}, map[int]int{}
+}
+
+// counters returns what must be REPORTED per configured family: routes received and routes accepted.
+func (o *c12Oracle) counters() string {
+	parts := []string{}
+	for _, f := range o.cfg.fams {
+		recv, acc := 0, 0
+		for k, r := range o.routes {
+			if k[0] == f.id {
+				recv++
+				if !r.rej {
+					acc++
+				}
+			}
+		}
+		parts = append(parts, fmt.Sprintf("%d:%d/%d", f.id, recv, acc))
+	}
+	return strings.Join(parts, " ")
 }
 
 func (o *c12Oracle) withdraw(fam, key int) {
@@ -882,6 +1008,9 @@ func (o *c12Oracle) compare(adj, loc []c12Route) string {
 		if g.ver != w.ver {
 			return "route-version"
 		}
+		if g.rej != w.rej {
+			return "rejected-flag-of-route-misreported"
+		}
 		if g.stale != w.stale {
 			if g.stale {
 				return "fresh-route-marked-stale"
@@ -905,7 +1034,13 @@ func (o *c12Oracle) compare(adj, loc []c12Route) string {
 			return "route-unexpected"
 		}
 	}
-	if c12Routes(adj) != c12Routes(loc) {
+	accepted := []c12Route{}
+	for _, r := range adj {
+		if !r.rej {
+			accepted = append(accepted, r)
+		}
+	}
+	if c12Routes(accepted) != c12Routes(loc) {
 		return "loc-rib-differs-from-adj-rib-in"
 	}
 	return ""
@@ -916,7 +1051,7 @@ func (o *c12Oracle) compare(adj, loc []c12Route) string {
 
 type c12Ev struct {
 	op   string // est loss goto ann wd eor tick
-	a    [5]int
+	a    [6]int
 	caps c12Caps
 }
 
@@ -933,7 +1068,10 @@ func (ev c12Ev) line() string {
 	case "wd":
 		return fmt.Sprintf("wd %d %d", ev.a[0], ev.a[1])
 	}
-	return fmt.Sprintf("ann %d %d %d %d %d", ev.a[0], ev.a[1], ev.a[2], ev.a[3], ev.a[4])
+	if ev.op == "del" {
+		return "del"
+	}
+	return fmt.Sprintf("ann %d %d %d %d %d %d", ev.a[0], ev.a[1], ev.a[2], ev.a[3], ev.a[4], ev.a[5])
 }
 
 func c12GenCfg(r *vRand) c12Cfg {
@@ -1029,7 +1167,7 @@ func c12GenHistory(r *vRand, cfg c12Cfg, maxEv int) []c12Ev {
 			}
 		}
 		now += d
-		evs = append(evs, c12Ev{op: "tick", a: [5]int{d}})
+		evs = append(evs, c12Ev{op: "tick", a: [6]int{d}})
 	}
 	fam := func() int { return caps.mp[r.intn(len(caps.mp))] } // only families of the current session
 	inSession := func(f int) bool {
@@ -1044,14 +1182,14 @@ func c12GenHistory(r *vRand, cfg c12Cfg, maxEv int) []c12Ev {
 	// change re-announces byte-identical routes after a restart (the normal case), so a large share of the
 	// announcements repeats an earlier one exactly (same attributes, same next hop)
 	type annKey struct{ fam, key int }
-	last := map[annKey][2]int{}
+	last := map[annKey][3]int{} // version, NO_LLGR, rejected (AS_PATH loop)
 	lastKeys := []annKey{}
 	announce := func() {
 		if len(lastKeys) > 0 && r.chance(55) {
 			k := lastKeys[r.intn(len(lastKeys))]
 			if inSession(k.fam) {
 				v := last[k]
-				evs = append(evs, c12Ev{op: "ann", a: [5]int{k.fam, k.key, v[0], v[1], 0}})
+				evs = append(evs, c12Ev{op: "ann", a: [6]int{k.fam, k.key, v[0], v[1], 0, v[2]}})
 				return
 			}
 		}
@@ -1060,13 +1198,13 @@ func c12GenHistory(r *vRand, cfg c12Cfg, maxEv int) []c12Ev {
 		if _, ok := last[k]; !ok {
 			lastKeys = append(lastKeys, k)
 		}
-		last[k] = [2]int{ver, c12b(r.chance(25))}
-		evs = append(evs, c12Ev{op: "ann", a: [5]int{k.fam, k.key, ver, last[k][1], 0}})
+		last[k] = [3]int{ver, c12b(r.chance(25)), c12b(r.chance(18))}
+		evs = append(evs, c12Ev{op: "ann", a: [6]int{k.fam, k.key, ver, last[k][1], 0, last[k][2]}})
 	}
 	connect := func() {
 		for state < 3 {
 			state++
-			evs = append(evs, c12Ev{op: "goto", a: [5]int{state}})
+			evs = append(evs, c12Ev{op: "goto", a: [6]int{state}})
 		}
 		if !haveCaps || r.chance(45) {
 			caps = c12GenCaps(r, cfg)
@@ -1084,20 +1222,27 @@ func c12GenHistory(r *vRand, cfg c12Cfg, maxEv int) []c12Ev {
 				if !inSession(k.fam) {
 					continue
 				}
-				evs = append(evs, c12Ev{op: "ann", a: [5]int{k.fam, k.key, last[k][0], last[k][1], 0}})
+				evs = append(evs, c12Ev{op: "ann", a: [6]int{k.fam, k.key, last[k][0], last[k][1], 0, last[k][2]}})
 			}
 		}
 	}
 	connect()
 	for len(evs) < maxEv {
+		if !cfg.lr && r.chance(3) {
+			// the peer object goes away in whatever phase it is, and is configured again
+			evs = append(evs, c12Ev{op: "del"})
+			est, state = false, 0
+			cands = nil
+			continue
+		}
 		if est {
 			switch x := r.intn(100); {
 			case x < 40:
 				announce()
 			case x < 47:
-				evs = append(evs, c12Ev{op: "wd", a: [5]int{fam(), r.intn(3)}})
+				evs = append(evs, c12Ev{op: "wd", a: [6]int{fam(), r.intn(3)}})
 			case x < 67:
-				evs = append(evs, c12Ev{op: "eor", a: [5]int{fam()}})
+				evs = append(evs, c12Ev{op: "eor", a: [6]int{fam()}})
 			case x < 80:
 				tick([]int{1, 3, 9, 14, 26, 41})
 			default:
@@ -1116,7 +1261,7 @@ func c12GenHistory(r *vRand, cfg c12Cfg, maxEv int) []c12Ev {
 				default:
 					code, sub = all[r.intn(len(all))], r.pick(0, 1, 2, 3, 4, 5, 6, 7, 8, 9, 10, 11, 12, 255)
 				}
-				evs = append(evs, c12Ev{op: "loss", a: [5]int{k, code, sub}})
+				evs = append(evs, c12Ev{op: "loss", a: [6]int{k, code, sub}})
 				est, state = false, 0
 				cands = append(cands, now+caps.time)
 				for _, lt := range caps.ltuples {
@@ -1138,7 +1283,7 @@ func c12GenHistory(r *vRand, cfg c12Cfg, maxEv int) []c12Ev {
 					}
 					state = 0
 				}
-				evs = append(evs, c12Ev{op: "goto", a: [5]int{state, ad}})
+				evs = append(evs, c12Ev{op: "goto", a: [6]int{state, ad}})
 			default:
 				connect()
 			}
@@ -1162,6 +1307,7 @@ func c12RunHistory(t *testing.T, o *vOut, cfg c12Cfg, evs []c12Ev, corpus string
 		or := c12NewOracle(cfg)
 		judging := true
 		invariantFailed := false
+		countersFailed, apiFailed := false, false
 		var prevCaps c12Caps
 		var hdr strings.Builder
 		fmt.Fprintf(&hdr, "reset %d %d %d %d %d %d", c12b(cfg.gr), c12b(cfg.nb), c12b(cfg.ll), cfg.deferral, c12b(cfg.lr), len(cfg.fams))
@@ -1280,7 +1426,7 @@ func c12RunHistory(t *testing.T, o *vOut, cfg c12Cfg, evs []c12Ev, corpus string
 				}
 			case "ann":
 				for _, cur := range e.adjIn() {
-					if cur.fam == ev.a[0] && cur.key == ev.a[1] && cur.ver == ev.a[2] && cur.noLL == (ev.a[3] == 1) {
+					if cur.fam == ev.a[0] && cur.key == ev.a[1] && cur.ver == ev.a[2] && cur.noLL == (ev.a[3] == 1) && cur.rej == (ev.a[5] == 1) {
 						switch {
 						case cur.nLL > 0:
 							o.stat("ann_original_attrs_over_llgr_stale_entry", 1)
@@ -1291,9 +1437,26 @@ func c12RunHistory(t *testing.T, o *vOut, cfg c12Cfg, evs []c12Ev, corpus string
 						}
 					}
 				}
-				e.announce(ev.a[0], ev.a[1], ev.a[2], ev.a[3] == 1, ev.a[4])
-				or.announce(ev.a[0], ev.a[1], ev.a[2], ev.a[3] == 1)
+				e.announce(ev.a[0], ev.a[1], ev.a[2], ev.a[3] == 1, ev.a[4], ev.a[5] == 1)
+				or.announce(ev.a[0], ev.a[1], ev.a[2], ev.a[3] == 1, ev.a[5] == 1)
 				o.stat("ev_ann", 1)
+				if ev.a[5] == 1 {
+					o.stat("ev_ann_rejected_as_loop", 1)
+				}
+			case "del":
+				phase := "established"
+				switch {
+				case e.fsmState == bgp.BGP_FSM_ESTABLISHED:
+				case e.p.longLivedRunning.Load():
+					phase = "llgr"
+				case e.p.fsm.pConf.ReadOnly().GracefulRestart.State.PeerRestarting:
+					phase = "restart-window"
+				default:
+					phase = "down"
+				}
+				o.stat("ev_delete_while_"+phase, 1)
+				e.deleteAndReadd()
+				or.deleted()
 			case "wd":
 				e.withdraw(ev.a[0], ev.a[1])
 				or.withdraw(ev.a[0], ev.a[1])
@@ -1310,6 +1473,23 @@ func c12RunHistory(t *testing.T, o *vOut, cfg c12Cfg, evs []c12Ev, corpus string
 			d := e.dump()
 			o.ask(d, "dump")
 			adj := e.adjIn()
+			// what is REPORTED about the neighbour: the counters must be those of the routes the event log says
+			// it holds (received, and accepted = not rejected at reception) …
+			if judging && !countersFailed {
+				if got, want := e.counters(), or.counters(); got != want {
+					countersFailed = true
+					o.fail("reported-received/accepted-counters@"+ev.op, map[string]any{"corpus": corpus, "history": append([]string{}, log...),
+						"reported": got, "routes held per the event log": want, "observed": d})
+				}
+			}
+			// … and the API (GetTable ADJ_IN, ListPeer) must show what the white-box reads show
+			if ev.op != "ann" && ev.op != "wd" && ev.op != "goto" && !apiFailed {
+				if diff := e.apiView(); diff != "" {
+					apiFailed = true
+					o.fail("api-view-differs@"+ev.op, map[string]any{"corpus": corpus, "history": append([]string{}, log...), "difference": diff})
+				}
+				o.stat("api_view_checks", 1)
+			}
 			for _, r := range adj {
 				if r.stale {
 					o.stat("obs_stale_route", 1)
@@ -1341,6 +1521,9 @@ func c12RunHistory(t *testing.T, o *vOut, cfg c12Cfg, evs []c12Ev, corpus string
 			}
 			if judging {
 				if kind := or.compare(adj, e.locRib()); kind != "" {
+					if ev.op == "del" && kind == "loc-rib-differs-from-adj-rib-in" {
+						kind = "routes-of-deleted-peer-left-in-loc-rib"
+					}
 					cls := kind + "@" + ev.op
 					if ev.op == "loss" {
 						cls += ":" + c12LossName[ev.a[0]]
@@ -1379,6 +1562,12 @@ var c12Corpus = []struct{ name, hist string }{
 	{"llgr-time-zero-expires-with-the-restart-timer", "reset 1 0 1 33 0 2 0 1 1 1; goto 1 0; goto 2 0; goto 3 0; est 1 0 0 7 2 0 1 1 2 0 0 1 40 2 0 1 0; ann 0 1 2 0 0; ann 1 1 3 0 0; loss 0 0 0; tick 6; tick 1; tick 39; tick 1"},
 	{"restart-and-llgr-time-zero", "reset 1 0 1 33 0 1 0 1; goto 1 0; goto 2 0; goto 3 0; est 1 0 0 0 1 0 1 1 0 0 1 0 0; ann 0 1 2 0 0; loss 0 0 0; tick 1"},
 	{"maximum-restart-and-llgr-times", "reset 1 0 1 33 0 1 0 1; goto 1 0; goto 2 0; goto 3 0; est 1 0 0 4095 1 0 1 1 0 16777215 1 0 0; ann 0 1 2 0 0; loss 0 0 0; tick 4094; tick 1; tick 16777214; tick 1; tick 1"},
+	{"rejected-route-through-two-restarts", "reset 1 0 0 33 0 1 0 1; goto 1 0; goto 2 0; goto 3 0; est 1 0 0 20 1 0 0 0 1 0 0; ann 0 1 2 0 0 1; ann 0 2 3 0 0 0; eor 0; loss 0 0 0; tick 5; goto 1 0; goto 2 0; goto 3 0; est 1 0 0 20 1 0 0 0 1 0 0; ann 0 1 2 0 0 1; eor 0; loss 0 0 0; goto 1 0; goto 2 0; goto 3 0; est 1 0 0 20 1 0 0 0 1 0 0; eor 0; tick 30"},
+	{"rejected-route-purged-by-the-restart-timer", "reset 1 0 0 33 0 1 0 1; goto 1 0; goto 2 0; goto 3 0; est 1 0 0 7 1 0 0 0 1 0 0; ann 0 1 2 0 0 1; loss 0 0 0; tick 8; goto 1 0; goto 2 0; goto 3 0; est 1 0 0 7 1 0 0 0 1 0 0; ann 0 1 2 0 0 1; tick 1"},
+	{"rejected-route-under-llgr", "reset 1 0 1 33 0 1 0 1; goto 1 0; goto 2 0; goto 3 0; est 1 0 0 7 1 0 1 1 0 25 1 0 0; ann 0 1 2 0 0 1; ann 0 2 3 1 0 1; loss 0 0 0; tick 8; goto 1 0; goto 2 0; goto 3 0; est 1 0 0 7 1 0 1 1 0 25 1 0 0; ann 0 1 2 0 0 1; eor 0; tick 30"},
+	{"deleted-while-restart-timer-runs", "reset 1 0 0 33 0 1 0 1; goto 1 0; goto 2 0; goto 3 0; est 1 0 0 20 1 0 0 0 1 0 0; ann 0 1 2 0 0 0; ann 0 2 3 0 0 1; loss 0 0 0; tick 5; del; tick 30; goto 1 0; goto 2 0; goto 3 0; est 1 0 0 20 1 0 0 0 1 0 0; ann 0 1 4 0 0 0; eor 0"},
+	{"deleted-during-the-long-lived-period", "reset 1 0 1 33 0 1 0 1; goto 1 0; goto 2 0; goto 3 0; est 1 0 0 7 1 0 1 1 0 50 1 0 0; ann 0 1 2 0 0 0; loss 0 0 0; tick 10; del; tick 60"},
+	{"deleted-while-established-and-resynchronizing", "reset 1 0 0 33 0 1 0 1; goto 1 0; goto 2 0; goto 3 0; est 1 0 0 20 1 0 0 0 1 0 0; ann 0 1 2 0 0 0; loss 0 0 0; goto 1 0; goto 2 0; goto 3 0; est 1 0 0 20 1 0 0 0 1 0 0; ann 0 2 3 0 0 0; del; tick 30"},
 	{"identical-reannouncement-is-fresh", "reset 1 0 0 33 0 1 0 1; goto 1 0; goto 2 0; goto 3 0; est 1 0 0 20 1 0 0 0; ann 0 1 2 0 0; ann 0 2 3 0 0; eor 0; loss 0; tick 5; goto 1 0; goto 2 0; goto 3 0; est 1 0 0 20 1 0 0 0; ann 0 1 2 0 0; eor 0; tick 30"},
 	{"identical-reannouncement-second-loss", "reset 1 0 0 33 0 1 0 1; goto 1 0; goto 2 0; goto 3 0; est 1 0 0 20 1 0 0 0; ann 0 1 2 0 0; loss 0; goto 1 0; goto 2 0; goto 3 0; est 1 0 0 20 1 0 0 0; ann 0 1 2 0 0; loss 2; goto 1 0; goto 2 0; goto 3 0; est 1 0 0 20 1 0 0 0; ann 0 1 2 0 0; eor 0"},
 	{"identical-reannouncement-under-llgr", "reset 1 0 1 33 0 2 0 1 1 1; goto 1 0; goto 2 0; goto 3 0; est 1 0 0 7 2 0 1 1 1 0 50; ann 0 1 2 0 0; ann 1 1 3 0 0; loss 0; tick 3; goto 1 0; goto 2 0; goto 3 0; est 1 0 0 7 2 0 1 1 1 0 50; ann 1 1 3 0 0; loss 0; tick 10; goto 1 0; goto 2 0; goto 3 0; est 1 0 0 7 2 0 1 1 1 0 50; ann 0 1 2 0 0; tick 50; eor 0; eor 1"},
@@ -1538,7 +1727,7 @@ func c12SessionCase(t *testing.T, o *vOut, cfgGR, cfgNotif, capGR, capN bool, k,
 		e.stateMsg(bgp.BGP_FSM_ESTABLISHED, fsmOpenMsgNegotiated)
 		st := e.p.fsm.pConf.ReadOnly().GracefulRestart.State
 		enabled, notif := st.Enabled, st.NotificationEnabled
-		e.announce(0, 1, 2, false, 0)
+		e.announce(0, 1, 2, false, 0, false)
 
 		// the scripted peer: reads and discards what we send
 		go func() { _, _ = io.Copy(io.Discard, remote) }()
@@ -1791,9 +1980,9 @@ func TestVerifC12Export(t *testing.T) {
 			c12EstablishPeer(e.s, q.p, capsFor(qLL), fams, 65003, "10.9.0.3")
 			c12EstablishPeer(e.s, r.p, capsFor(rLL), fams, 65004, "10.9.0.4")
 			e.establish(c12Caps{gr: true, time: 20, tuples: []int{0}, llgr: true, ltuples: [][2]int{{0, 100}}})
-			e.announce(0, 1, 1, false, 0)
-			e.announce(0, 2, 1, false, 0)
-			e.announce(0, 3, 1, true, 0)
+			e.announce(0, 1, 1, false, 0, false)
+			e.announce(0, 2, 1, false, 0, false)
+			e.announce(0, 3, 1, true, 0, false)
 			// Q's competing route for 20.1/16, longer AS_PATH
 			nlri, nh := c12Prefix(0, 1)
 			nha, _ := bgp.NewPathAttributeNextHop(nh)
